@@ -445,3 +445,77 @@ func isPointerLike(t types.Type) bool {
 	}
 	return false
 }
+
+// checkNilErrorDereferenced — C09.E2, the mirror of E1. On the branch where `err == nil` is
+// known, the error value is nil: calling err.Error() there, or handing err to a function that
+// calls Error() on that parameter without testing it, panics (the websocket handler answered a
+// *successful* unsubscribe with getErrResponse(id, err, …): any client could crash the node).
+func checkNilErrorDereferenced(c *Ctx, fns []*ssa.Function) {
+	p := c.P
+	n := 0
+	derefsParam := func(g *ssa.Function, k int) bool {
+		if g == nil || !IsOwn(g) || len(g.Blocks) == 0 || k >= len(g.Params) {
+			return false
+		}
+		prm := g.Params[k]
+		gf := factsOf(g)
+		for _, u := range *prm.Referrers() {
+			call, ok := u.(ssa.CallInstruction)
+			if !ok || !call.Common().IsInvoke() || call.Common().Value != ssa.Value(prm) || call.Common().Method.Name() != "Error" {
+				continue
+			}
+			guarded := false
+			for _, f := range gf.FactsAt(call.Block()) {
+				if f.IsCmp && f.Op == token.NEQ && f.R.Sym == "nil" && f.L.V == ssa.Value(prm) {
+					guarded = true
+				}
+			}
+			if !guarded {
+				return true
+			}
+		}
+		return false
+	}
+	for _, fn := range fns {
+		for _, b := range fn.Blocks {
+			ifi, ok := b.Instrs[len(b.Instrs)-1].(*ssa.If)
+			if !ok {
+				continue
+			}
+			bo, ok := ifi.Cond.(*ssa.BinOp)
+			if !ok || (bo.Op != token.NEQ && bo.Op != token.EQL) || !isErrorType(bo.X.Type()) {
+				continue
+			}
+			cst, ok := bo.Y.(*ssa.Const)
+			if !ok || !cst.IsNil() {
+				continue
+			}
+			n++
+			nilIdx := 1 // err != nil: the false successor knows err == nil
+			if bo.Op == token.EQL {
+				nilIdx = 0
+			}
+			e := Edge{From: b, To: b.Succs[nilIdx], If: ifi}
+			bad := ""
+			for _, u := range *bo.X.Referrers() {
+				call, ok := u.(ssa.CallInstruction)
+				if !ok || u.Block() == nil || !edgeDominates(e, u.Block()) {
+					continue
+				}
+				cc := call.Common()
+				if cc.IsInvoke() && cc.Value == bo.X && cc.Method.Name() == "Error" {
+					bad = "err.Error() at " + p.InstrPos(u) + " where err is nil"
+				}
+				if !cc.IsInvoke() {
+					for k, a := range cc.Args {
+						if a == bo.X && derefsParam(cc.StaticCallee(), k) {
+							bad = "nil error handed to " + CalleeName(cc) + " at " + p.InstrPos(u) + ", which calls Error() on it"
+						}
+					}
+				}
+			}
+			c.Require("C09.E2 nil-error-not-dereferenced", FuncKey(fn)+": branch on "+T(bo.X).String(), p.InstrPos(ifi), "where an error is known to be nil it is not dereferenced (no Error() call on it, directly or in the callee it is handed to)", bad == "", bad)
+		}
+	}
+	c.Count("branches on an error value in reachable functions", n)
+}
